@@ -200,7 +200,7 @@ def coq_check_props(prop_id: str, clean=False) -> CoqResult:
         r.errors.append("coqc Props failed:\n" + p.stdout[-3000:])
         r.make_s = time.time() - t0
         return r
-    names = props_theorems(props)
+    names = props_theorems(workdir / "Props" / f"{prop_id}.v")
     ass = parse_assumptions(p.stdout)
     if len(names) != len(ass) or not names:
         r.ok = False
@@ -214,7 +214,7 @@ def coq_check_props(prop_id: str, clean=False) -> CoqResult:
             r.ok = False
             r.errors.append(f"theorem {n} depends on non-allow-listed axiom {ax}")
     # every Theorem in the file must be followed by Print Assumptions
-    declared = re.findall(r"^Theorem\s+([\w']+)", props.read_text(), flags=re.M)
+    declared = re.findall(r"^Theorem\s+([\w']+)", (workdir / "Props" / f"{prop_id}.v").read_text(), flags=re.M)
     for d in declared:
         if d not in names:
             r.ok = False
